@@ -439,6 +439,20 @@ def _charpath_block(bct, res, case, D, oracle, fname, lean=True):
             if not np.array_equal(Din, D0, equal_nan=True):
                 res['fails'].append(('charpath', 'input-modified', {'of': fname}))
             lam, eff = float(out[0]), float(out[1])
+            # eccentricity / radius / diameter as coded: row maxima of the unmasked cells (NumPy's masked fill value 1e20
+            # for a row with no unmasked cell), then min / max; these involve no arithmetic, so the comparison is exact
+            want_ecc = []
+            for i in range(n):
+                row = [float(D[i, j]) for j in range(n) if (incdiag or i != j) and (incinf or not math.isinf(D[i, j]))]
+                want_ecc.append(max(row) if row else 1e20)
+            ecc = np.asarray(out[2], dtype=float).ravel(); rad = float(out[3]); dia = float(out[4])
+            einfo = {'of': fname, 'include_diagonal': incdiag, 'include_infinite': incinf, 'D': mstr(D)}
+            if ecc.shape != (n,) or not all(a == b for a, b in zip(ecc, want_ecc)):
+                res['fails'].append(('charpath', 'eccentricity', dict(einfo, ecc=mstr(ecc), oracle=mstr(want_ecc))))
+            if rad != min(want_ecc):
+                res['fails'].append(('charpath', 'radius', dict(einfo, radius=rad, oracle=min(want_ecc))))
+            if dia != max(want_ecc):
+                res['fails'].append(('charpath', 'diameter', dict(einfo, diameter=dia, oracle=max(want_ecc))))
             vals = [float(D[i, j]) for i in range(n) for j in range(n) if incdiag or i != j]
             if not incinf:
                 vals = [x for x in vals if not math.isinf(x)]
@@ -451,7 +465,8 @@ def _charpath_block(bct, res, case, D, oracle, fname, lean=True):
             res['stats']['charpath_calls:' + fname.split(':')[0]] = res['stats'].get('charpath_calls:' + fname.split(':')[0], 0) + 1
             if lean:
                 res['lines'].append(('charpath n=%d D=%s diag=%d inf=%d' % (n, mstr(D), int(incdiag), int(incinf)),
-                                     [('lambda', 'tol', lam), ('eff', 'tol', eff)]))
+                                     [('lambda', 'tol', lam), ('eff', 'tol', eff), ('ecc', 'exact', mstr(ecc)),
+                                      ('radius', 'exact', fstr(rad)), ('diameter', 'exact', fstr(dia))]))
 
 
 def run_case(case):
@@ -549,6 +564,16 @@ def _run_bin(bct, case, res):
             m = np.arange(n) != s
             if not np.array_equal(dd[m], want[m]):
                 res['fails'].append(('breadth', 'min-length', {'source': s, 'out': mstr(dd), 'oracle': mstr(want)}))
+            # predecessor vector: branch[source] = -1; for every reached v != source, branch[v] is a node with a connection to v
+            # that lies one level closer to the source (theorem breadth_branch_spec)
+            br = np.asarray(branch, dtype=float)
+            okb = br.shape == (n,) and br[s] == -1
+            for v in range(n):
+                if okb and v != s and np.isfinite(want[v]):
+                    u = int(br[v])
+                    okb = 0 <= u < n and br[v] == u and A[u, v] != 0 and want[u] + 1 == want[v]
+            if not okb:
+                res['fails'].append(('breadth', 'branch-predecessor', {'source': s, 'branch': istr(br), 'dist': mstr(want)}))
             res['lines'].append(('breadth n=%d A=%s s=%d' % (n, Awline, s), [('dist', 'exact', mstr(dist)), ('branch', 'exact', istr(branch))]))
     if n >= 2:
         st, out = call(bct.efficiency_bin, _rep(Aw, case), t=5, retry=10)
